@@ -475,10 +475,16 @@ def gen_cases(ctx, rng, tier):
     odd = [['urn:ietf:params:foo:netconf:capability:candidate:1.0'], [A + 'candidate'], [A[:-1]], [':candidate'],
            [':candidate', ':confirmed-commit'], ['urn:ietf:params:netconf:capability:candidate:1.0:extra'],
            [B + 'validate:1.1'], [A + 'validate:1.0'], [':validate:1.1'], [A + 'validate:1.1', ':validate'],
-           ['candidate'], [A + 'Candidate:1.0'], [' ' + A + 'candidate:1.0'], [A + 'url:1.0', A + 'url:1.0'], [':url']]
+           ['candidate'], [A + 'Candidate:1.0'], [' ' + A + 'candidate:1.0'], [A + 'url:1.0', A + 'url:1.0'], [':url'],
+           # IETF URNs that are NOT capability URNs: YANG/XML namespaces a server lists as modules, capability-less forms
+           ['urn:ietf:params:xml:ns:netconf:notification:1.0?module=notifications&revision=2008-07-14'],
+           ['urn:ietf:params:xml:ns:netconf:notification:1.0', 'urn:ietf:params:xml:ns:netmod:notification?module=nc-notifications'],
+           ['urn:ietf:params:netconf:candidate:1.0', 'urn:ietf:params:xml:ns:netconf:candidate:1.0', 'urn:ietf:params:netconf:validate:1.1'],
+           ['urn:ietf:params:xml:ns:netconf:base:1.0', 'urn:ietf:params:xml:ns:yang:ietf-netconf-with-defaults?module=ietf-netconf-with-defaults'],
+           ['urn:ietf:params:netconf:url:1.0?scheme=file', 'urn:ietf:params:netconf:confirmed-commit:1.1', 'urn:ietf:params:netconf:rollback-on-error:1.0']]
     for uris in odd:
         for call in core:
-            if call[0] in ('commit', 'discard_changes', 'cancel_commit', 'validate', 'delete_config') or (call[0] == 'edit_config' and call[1]['eop'] is None):
+            if call[0] in ('commit', 'discard_changes', 'cancel_commit', 'validate', 'delete_config', 'create_subscription', 'copy_config', 'get', 'get_config') or (call[0] == 'edit_config'):
                 cases.append(dict(profile=profile_for(call), uris=uris, call=call))
     # (f) every profile: the standard gated calls on a few subsets (gating must not depend on the profile)
     few = [sets[i] for i in (0, 3 * 255, 3 * 255 + 1, 3 * 0b10101010 + 2, 3 * 0b01010101)]
